@@ -38,11 +38,11 @@ BOUNDS = {
 }
 ASSUMPTIONS = [
     "skeleton family: ~V first, then an order of {~W, ~C, ~P, ~O, one custom section}, ~A at any later place; section bodies are the listed concrete lines plus one symbolic item; one section title is symbolic per run (the others use canonical spellings)",
-    "titles: '~' + section letter in either case + up to 2 (quick) / 3 (thorough) further printable characters (no '_', which selects LAS 3.0 routing, no '~')",
+    "titles: at most one leading blank or tab + '~' + section letter in either case + up to 2 (quick) / 3 (thorough) further printable characters (no '_', which selects LAS 3.0 routing, no '~')",
     "the symbolic item (in ~C, ~P or the custom section) has a 3-4 character mnemonic and a value chosen among {'YES','1.2','COMMA','5'}: the steering names are inside the domain",
     "custom section titles begin with a letter other than V/W/C/P/O/A in either case",
 ]
-WITNESS_TARGETS = ["lower-case-title", "title-with-trailing-text", "steering-name-in-foreign-section", "data-section-not-last", "well-section-without-NULL", "section-with-title-line-only", "header-only-read-with-data-section-not-last"]
+WITNESS_TARGETS = ["indented-title", "lower-case-title", "title-with-trailing-text", "steering-name-in-foreign-section", "data-section-not-last", "well-section-without-NULL", "section-with-title-line-only", "header-only-read-with-data-section-not-last"]
 EXCLUSIONS = {}
 LETTERS = {"W": "Ww", "C": "Cc", "P": "Pp", "O": "Oo", "A": "Aa", "X": None}
 STEER_VALUES = ["YES", "1.2", "COMMA", "5"]
@@ -96,7 +96,10 @@ def harness(ns, params):
                 A(z.And(z.Or(z.in_range_c(first.chars[0], 65, 90), z.in_range_c(first.chars[0], 97, 122)), z.Not(z.in_set_c(first.chars[0], tuple(ord(c) for c in "VWCPOAvwcpoa")))))
             else:
                 A(z.in_set_c(first.chars[0], tuple(ord(c) for c in LETTERS[k])))
-            titles[k] = SymStr.lift(concat(["~", first, extra]))
+            ind = SymStr.fresh("ti_" + k, 1)  # the title line may be indented by a blank or a tab
+            A(allc(ind, lambda c: z.in_set_c(c, (32, 9))))
+            titles[k] = SymStr.lift(concat([ind, "~", first, extra]))
+            core.witness("indented-title", ind.truth())
             core.witness("lower-case-title", z.in_range_c(first.chars[0], 97, 122))
             core.witness("title-with-trailing-text", extra.truth())
         # the symbolic item
